@@ -1,0 +1,25 @@
+//go:build verif
+
+package embedded
+
+// Contracts checked by /verif (gvc). This file contains comments only and is compiled only with -tags verif.
+
+// ---- embedded.Method: the interface every embedded-contract method implements ----------------------------------------
+// ValidateSendBlock may canonicalise the call data; it leaves every other field of the block alone.
+//@ func Method.ValidateSendBlock(self, block)
+//@   modifies block.Data
+
+// ReceiveBlock works on the contract's storage only: it must not touch balances, the received set or the inbox cursor
+// (the VM credits the amount before the call and debits every returned descendant send block afterwards). This is the
+// frame every embedded method is held to in property C01.
+//@ func Method.ReceiveBlock(self, context, sendBlock) -> (descendants, err)
+//@   ensures forall k int :: 0 <= k && k < len(descendants) ==> descendants[k] != nil && descendants[k].Amount != nil && fresh(descendants[k])
+//@   modifies context.storageVersion, sendBlock.Data
+
+// Method lookup by (spork regime of the acknowledged momentum, contract address, ABI selector).
+//@ func GetEmbeddedMethod(context, address, abiSelector) -> (m, err)
+//@   ensures[user-address] address[0] != 1 ==> err == constants.ErrNotContractAddress && m == nil
+//@   ensures[contract-address] address[0] == 1 ==> err != constants.ErrNotContractAddress
+//@   ensures[found] err == nil ==> m != nil
+//@   ensures[not-found] err != nil ==> m == nil
+//@   modifies nothing
